@@ -356,14 +356,14 @@ func boundaryHistory(rng *rand.Rand) *annot.Input {
 
 // errorFamily: the typed-error clause for every combination of the two ignore options and every
 // kind of unusable child history: never listed, not found, empty, all versions deleted, deleted at
-// the parent's time (undeleted later).  The way also references one healthy node.
+// the parent's time (undeleted later), lookup failing with another error.  The way also references one healthy node.
 func errorFamily() []*annot.Input {
 	var out []*annot.Input
 	t0 := osm.CommitInfoStart.Add(200 * 24 * time.Hour)
 	at := func(h int) (time.Time, *time.Time) { t := t0.Add(time.Duration(h) * time.Hour); c := t; return t, &c }
 	good, bad := osm.NodeID(1).FeatureID(), osm.NodeID(2).FeatureID()
 	for combo := 0; combo < 4; combo++ {
-		for kind := 0; kind < 5; kind++ {
+		for kind := 0; kind < 6; kind++ {
 			in := &annot.Input{Threshold: 30 * time.Minute, Regime: "commit", IgnoreIncons: combo&1 != 0, IgnoreMissing: combo&2 != 0}
 			ts, com := at(10)
 			in.Parents = []annot.Parent{{Changeset: 1, Visible: true, Timestamp: ts, Committed: com, Refs: []annot.Ref{{FID: good}, {FID: bad}}}}
@@ -387,6 +387,8 @@ func errorFamily() []*annot.Input {
 					{Version: 1, Changeset: 4, Timestamp: b1, Committed: bc1, Lat: 3, Lon: 3, Visible: true},
 					{Version: 2, Changeset: 5, Timestamp: b2, Committed: bc2, Visible: false},
 					{Version: 3, Changeset: 6, Timestamp: b3, Committed: bc3, Lat: 4, Lon: 4, Visible: true}}})
+			case 5: // the datasource fails with an error that is not "not found": never swallowed by an option
+				in.Hists = append(in.Hists, annot.Hist{FID: bad, Kind: 2})
 			}
 			out = append(out, in)
 		}
@@ -449,7 +451,7 @@ func main() {
 	a := wire.ParseArgs()
 	rng := wire.Rng(a.Seed)
 	w := wire.NewWriter("C11", a.Seed, a.Tier)
-	w.Rule = "edit histories: 1-5 parent versions, 1-6 children (repeats, entering, leaving), up to 8 versions per child placed before/between/after/in the same second as parent versions, deletions and undeletions, regimes commit / old / nocommit / mixed, thresholds 0,1s,30min,10000h,random; families: undelete (a child deleted before / at the parent version and undeleted later, with and without IgnoreInconsistency), errors (4 ignore-option combinations x {never listed, not found, empty, all deleted, deleted at the parent's time}), slow_datasource (context-honouring lookups with one ignorable missing child), late_parent (first k parent versions annotated alone, then all together with the first k already annotated), old data with a populated committed attribute, location-only references under a filter, versions dated in the year 2100; plus a boundary family (child versions stamped exactly at a parent's stamp, at the next parent's stamp minus the threshold, +-1ns, +-threshold), child filters with pre-annotated references, ignore options, missing or failing histories; half of the histories are consistent (success expected). For every visible parent of a successful annotation ApplyUpdatesUpTo(t) is observed at up to 8 (quick) / 16 (thorough) times drawn from all event times, +-1ns, +-threshold (window times first). Non-trivial = error outcome or at least one update; distinct = distinct token streams."
+	w.Rule = "edit histories: 1-5 parent versions, 1-6 children (repeats, entering, leaving), up to 8 versions per child placed before/between/after/in the same second as parent versions, deletions and undeletions, regimes commit / old / nocommit / mixed, thresholds 0,1s,30min,10000h,random; families: undelete (a child deleted before / at the parent version and undeleted later, with and without IgnoreInconsistency), errors (4 ignore-option combinations x {never listed, not found, empty, all deleted, deleted at the parent's time, lookup failing with another error}), slow_datasource (context-honouring lookups with one ignorable missing child), late_parent (first k parent versions annotated alone, then all together with the first k already annotated), old data with a populated committed attribute, location-only references under a filter, versions dated in the year 2100; plus a boundary family (child versions stamped exactly at a parent's stamp, at the next parent's stamp minus the threshold, +-1ns, +-threshold), child filters with pre-annotated references, ignore options, missing or failing histories; half of the histories are consistent (success expected). For every visible parent of a successful annotation ApplyUpdatesUpTo(t) is observed at up to 8 (quick) / 16 (thorough) times drawn from all event times, +-1ns, +-threshold (window times first). Non-trivial = error outcome or at least one update; distinct = distinct token streams."
 	n, ntimes := 200, 8
 	if a.Tier == "thorough" {
 		n, ntimes = 6000, 16
@@ -480,7 +482,7 @@ func main() {
 	}
 	// a slow datasource that honours its context, with one missing child that is to be ignored
 	for k := 0; k < 3; k++ {
-		in := errorFamily()[10+k] // ignore_missing set, inconsistency not ignored
+		in := errorFamily()[2*6+k] // combo 2: ignore_missing set, inconsistency not ignored; kinds never listed / not found / empty
 		in.IgnoreIncons = true
 		in.Slow = true
 		for j := 0; j < 4; j++ {
